@@ -76,26 +76,32 @@ package xy
 // pair's end is finished: between two consecutive marks every point is within the threshold of their segment
 //@ func dpWorker
 //@   floats real
-//@   lemmas mulCancel, mulCancel2, mulNonneg
-//@   requires stride >= 2 && len(mask) >= 3 && len(ls) == mul(len(mask), stride) && len(ls) == len(mask) * stride && threshold >= 0.0
+//@   lemmas mulCancel, mulCancel2, mulNonneg, mulMono
+//@   requires stride >= 2 && len(mask) >= 3 && len(ls) == mul(len(mask), stride) && threshold >= 0.0
 //@   requires mask[0] == 1 && mask[len(mask)-1] == 1 && forall i int :: 0 < i && i < len(mask)-1 ==> mask[i] == 0
-//@   ensures [kept] mask[0] == 1 && mask[len(mask)-1] == 1
+//@   ensures [kept] mask[0] == 1 && mask[len(mask)-1] == 1 && res >= 2
 //@   ensures [bits] forall i int :: 0 <= i && i < len(mask) ==> mask[i] == 0 || mask[i] == 1
-//@   ensures [within] forall u, v, i int :: {noMarks(cells(mask), off(mask), u, v), d2at(cells(ls), off(ls), stride, u, v, i)} 0 <= u && u < i && i < v && v < len(mask) && mask[u] == 1 && mask[v] == 1 && noMarks(cells(mask), off(mask), u, v) ==> d2at(cells(ls), off(ls), stride, u, v, i) <= threshold * threshold
+//@   ensures [within] forall u, v, i int :: {noMarks(heapfor("byte"), mask, u, v), d2at(cells(ls), off(ls), stride, u, v, i)} 0 <= u && u < i && i < v && v < len(mask) && mask[u] == 1 && mask[v] == 1 && noMarks(heapfor("byte"), mask, u, v) ==> d2at(cells(ls), off(ls), stride, u, v, i) <= threshold * threshold
 //@   modifies mask
 //@   at entry: assert len(ls) / stride == len(mask)
+//@   at loop2.end: assert d2at(cells(ls), off(ls), stride, start, end, i - 1) <= maxDist
 //@   loop 1:
-//@     invariant [shape] l == len(stack) && l >= 0 && fresh(stack) && (forall j int :: 0 <= j && 2*j+1 < l ==> 0 <= stack[2*j] && stack[2*j] < stack[2*j+1] && stack[2*j+1] < len(mask)) && (forall j int :: 0 <= j && 2*j+2 < l ==> stack[2*j+1] == stack[2*j+2]) && (l > 0 ==> stack[0] == 0) && (exists h int :: l == 2*h)
-//@     invariant [marked] forall k int :: 0 <= k && k < l ==> mask[stack[k]] == 1
-//@     invariant [room] forall k int :: 0 <= k && k < l ==> 0 <= stack[k] * stride && stack[k] * stride + stride <= len(ls)
-//@     invariant [pending] forall j, w int :: 0 <= j && 2*j+1 < l && stack[2*j] < w && w < stack[2*j+1] ==> mask[w] == 0
+//@     invariant [shape] l == len(stack) && l >= 0 && l % 2 == 0 && fresh(stack) && (l > 0 ==> stack[0] == 0) && found >= 2
+//@     invariant [range] forall k int :: 0 <= k && k < l ==> 0 <= stack[k] && stack[k] < len(mask) && mask[stack[k]] == 1 && mul(stack[k] + 1, stride) == mul(stack[k], stride) + stride && 0 <= mul(stack[k], stride)
+//@     invariant [sorted] forall a, b int :: 0 <= a && a <= b && b < l ==> stack[a] <= stack[b]
+//@     invariant [pairs] forall k int :: 0 <= k && k + 1 < l && (l - k) % 2 == 0 ==> stack[k] < stack[k+1]
+//@     invariant [chain] forall k int :: 0 <= k && k + 1 < l && (l - k) % 2 == 1 ==> stack[k] == stack[k+1]
+//@     invariant [pending] forall k, w int :: 0 <= k && k + 1 < l && (l - k) % 2 == 0 && stack[k] < w && w < stack[k+1] ==> mask[w] == 0
 //@     invariant [bits] mask[0] == 1 && mask[len(mask)-1] == 1 && forall i int :: 0 <= i && i < len(mask) ==> mask[i] == 0 || mask[i] == 1
-//@     invariant [done] forall u, v, i int :: {noMarks(cells(mask), off(mask), u, v), d2at(cells(ls), off(ls), stride, u, v, i)} (l > 0 ? stack[l-1] : 0) <= u && u < i && i < v && v < len(mask) && mask[u] == 1 && mask[v] == 1 && noMarks(cells(mask), off(mask), u, v) ==> d2at(cells(ls), off(ls), stride, u, v, i) <= threshold * threshold
+//@     invariant [done] forall u, v, i int :: {noMarks(heapfor("byte"), mask, u, v), d2at(cells(ls), off(ls), stride, u, v, i)} (l > 0 ? stack[l-1] : 0) <= u && u < i && i < v && v < len(mask) && mask[u] == 1 && mask[v] == 1 && noMarks(heapfor("byte"), mask, u, v) ==> d2at(cells(ls), off(ls), stride, u, v, i) <= threshold * threshold
 //@   loop 2:
-//@     invariant start + 1 <= i && i <= end && maxDist >= 0.0 && start * stride >= 0 && i * stride <= end * stride && end * stride + stride <= len(ls) && i * stride > start * stride
+//@     invariant start + 1 <= i && i <= end && maxDist >= 0.0 && mul(i + 1, stride) == mul(i, stride) + stride && 0 <= mul(i, stride)
 //@     invariant forall k int :: {d2at(cells(ls), off(ls), stride, start, end, k)} start < k && k < i ==> d2at(cells(ls), off(ls), stride, start, end, k) <= maxDist
 //@     invariant maxDist > 0.0 ==> start < maxIndex && maxIndex < i
 
+// the result lists the marked indices in increasing order (first and last point always). That two consecutive
+// results are consecutive marks, which carries dpWorker's [within] clause over to the result list, is not
+// discharged by the installed solvers and is left undecided.
 //@ func SimplifyFlatCoords
 //@   floats real
 //@   lemmas mulCancel, mulCancel2, mulNonneg
@@ -103,12 +109,17 @@ package xy
 //@   ensures [increasing] forall k int :: 0 < k && k < len(res) ==> res[k-1] < res[k]
 //@   ensures [range] forall k int :: 0 <= k && k < len(res) ==> 0 <= res[k] && res[k] < cnt(len(flatCoords), stride)
 //@   ensures [ends] cnt(len(flatCoords), stride) >= 1 ==> len(res) >= 1 && res[0] == 0 && res[len(res)-1] == cnt(len(flatCoords), stride) - 1
+//@   ensures [small] cnt(len(flatCoords), stride) < 3 ==> len(res) == cnt(len(flatCoords), stride) && forall k int :: 0 <= k && k < len(res) ==> res[k] == k
 //@   modifies nothing
+//@   at loop1.before: assert size == cnt(len(flatCoords), stride)
+//@   at after:xy.dpWorker: assert size == cnt(len(flatCoords), stride)
 //@   loop 1:
 //@     invariant len(ret) == size && fresh(ret) && forall k int :: 0 <= k && k < idx ==> ret[k] == k
 //@   loop 2:
+//@     ghost last int = 0 - 1 step (mask[idx-1] == 1 ? idx - 1 : last)
 //@     invariant fresh(indexMap) || cap(indexMap) == 0
+//@     invariant 0 - 1 <= last && last < idx && (last == 0 - 1 <==> len(indexMap) == 0) && (len(indexMap) > 0 ==> indexMap[len(indexMap)-1] == last && indexMap[0] == 0)
+//@     invariant idx > 0 ==> last >= 0
+//@     invariant idx == len(mask) ==> last == len(mask) - 1
 //@     invariant forall k int :: 0 < k && k < len(indexMap) ==> indexMap[k-1] < indexMap[k]
-//@     invariant forall k int :: 0 <= k && k < len(indexMap) ==> 0 <= indexMap[k] && indexMap[k] < idx
-//@     invariant idx > 0 ==> len(indexMap) >= 1 && indexMap[0] == 0
-//@     invariant idx == len(mask) ==> indexMap[len(indexMap)-1] == len(mask) - 1
+//@     invariant forall k int :: 0 <= k && k < len(indexMap) ==> 0 <= indexMap[k] && indexMap[k] <= last
